@@ -20,6 +20,7 @@ import re
 
 from sa import ir, cfg, witness, logic
 from sa.ir import fmt, walk, short
+from sa.callgraph import tree_effects
 from sa.extract import VERIF
 from .common import callgraph, elem_calls
 from . import C10
@@ -159,7 +160,16 @@ def run(ctx):
         ms = [g for g in prog.fns.values() if g.has_cfg and g.is_pattern and g.name == "min_severity" and (g.cls or "") == "nitro::log::filter::severity_filter"]
         for g in ms:
             rr = ret_expr(g)
-            ctx.check(fmt(rr) in ("sev", "nitro::log::filter::severity_filter::sev", "severity_filter::sev") or fmt(rr).endswith("sev"), "R05.4", g, "threshold-is-configured-value", "min_severity() returns %s" % fmt(rr), g)
+            # ... the very object set_severity() assigns (a static data member, or a function-local static behind an accessor)
+            ss = [h for h in prog.fns.values() if h.has_cfg and h.is_pattern and h.name == "set_severity" and (h.cls or "") == "nitro::log::filter::severity_filter"]
+            written = set()
+            for h in ss:
+                for _, _, e in h.roots():
+                    for eff, lv, n0 in tree_effects(e["expr"]):
+                        if eff in ("write", "maybe_write") and lv is not None:
+                            written.add(fmt(ir.unwrap(lv)))
+            ctx.check(bool(written) and fmt(ir.unwrap(rr)) in written, "R05.4", g, "threshold-is-configured-value",
+                      "min_severity() returns %s, set_severity() writes %s: the threshold that is compared is not the one that is configured" % (fmt(rr), sorted(written)), g, why_ok=fmt(rr))
     f = filt("null_filter")
     if ctx.anchor("R05.4", "nitro::log::filter::null_filter::filter", f is not None):
         r = ret_expr(f)
@@ -208,7 +218,36 @@ def run(ctx):
         txt = " ".join(fmt(e["expr"]) for _, _, e in f.roots())
         ctx.check("gen_seq<sizeof...(Ts)>" in txt or "index_sequence_for" in txt or "make_index_sequence" in txt, "R05.6", f, "all-indices", "tuple_foreach does not iterate a full index sequence: %s" % txt[:80], f)
     sq = [f for f in prog.fns.values() if f.has_cfg and f.is_pattern and f.kind == "lambda" and f.id.startswith("nitro::log::sink::sequence::sink(")]
-    ctx.need("R05.6", "sequence::sink fan-out lambda", len(sq), 1)
+    # ... or a named function object of the class handed to tuple_foreach: its call operator forwards its two members,
+    # which the construction binds to the two parameters of sink() in order
+    functor_ok = None
+    if not sq:
+        sk = [g for g in prog.fns.values() if g.is_pattern and g.kind == "method" and g.qual == "nitro::log::sink::sequence::sink" and g.has_cfg]
+        for g in sk:
+            for _, _, e in g.roots():
+                for n0 in walk(e["expr"]):
+                    if n0.get("k") == "call" and short(n0.get("name") or "") == "tuple_foreach" and len(n0.get("args", [])) == 2:
+                        fo = ir.unwrap(n0["args"][1])
+                        if isinstance(fo, dict) and fo.get("k") in ("construct", "init_list", "paren_list", "cast"):
+                            while isinstance(fo, dict) and fo.get("k") == "cast":
+                                fo = ir.unwrap(fo["e"])
+                            items = list(fo.get("args") or fo.get("elems") or [])
+                            if len(items) == 1 and isinstance(ir.unwrap(items[0]), dict) and ir.unwrap(items[0]).get("k") == "init_list":
+                                items = list(ir.unwrap(items[0]).get("elems", []))
+                            parts = [fmt(ir.unwrap(a)) for a in items]
+                            cname = fo.get("name") or fo.get("type") or ""
+                            ops = [h for h in prog.fns.values() if h.has_cfg and h.op == "()" and (h.cls or "").endswith(short(cname)) and (h.cls or "").startswith("nitro::log::sink::sequence")]
+                            cdict = prog.cls(ops[0].cls) if ops else None
+                            flds = [fl["name"] for fl in (cdict or {}).get("fields", [])]
+                            pn = [p0.get("name") for p0 in g.params]
+                            good = bool(ops) and parts == pn and len(flds) == 2
+                            for h in ops:
+                                cs = [m for _, _, e2 in h.roots() for m in elem_calls(e2) if short(m.get("name") or "") == "sink"]
+                                good = good and len(cs) == 1 and [fmt(ir.unwrap(a)) for a in cs[0].get("args", [])] == flds
+                            functor_ok = (good, g, "function object %s{%s} forwarding %s" % (short(cname), ", ".join(parts), flds))
+    if functor_ok is not None:
+        ctx.check(functor_ok[0], "R05.6", functor_ok[1], "forwards-both-parameters-unchanged", "the fan-out %s does not hand (severity, record) unchanged to each member sink" % functor_ok[2], functor_ok[1], why_ok=functor_ok[2])
+    ctx.need("R05.6", "sequence::sink fan-out lambda / function object", len(sq) + (1 if functor_ok is not None else 0), 1)
     for f in sq:
         calls = [n for _, _, e in f.roots() for n in elem_calls(e) if short(n.get("name") or "") == "sink"]
         parent = [g for g in prog.fns.values() if g.is_pattern and g.kind == "method" and g.qual == "nitro::log::sink::sequence::sink" and f.id.startswith(g.id)]
